@@ -18,8 +18,11 @@ TECHNIQUE = ("Coq proof (model of ThreeWayDiffer + valueMerger.TryMerge/processB
 LEVEL_TEXT = ("Proof (F/P): for every schema triple whatsoever and all tables the repaired TryMerge never reaches an internal-error branch (merge_total; "
               "the line as found is refuted: F5). For every ancestor/left/right table and every schema triple in the one-sided add/drop class "
               "(schemas_ok) the model of dolt's row merge (differ + TryMerge + primaryMerger) equals the declarative cell-wise three-way merge "
-              "(row_merge_refines_spec; conflict_iff_partial, merge_one_sided, merge_agree, merge_cellwise, merge_swap_partial) under two data "
-              "hypotheses that are exactly the complements of two defects: delete_visible and conv_ok. Partial: the full conflict_iff / merge_swap "
+              "(row_merge_refines_spec_exact; conflict_iff_in_scope, merge_one_sided, merge_agree, merge_cellwise, and the full merge_swap: same "
+              "conflicting keys with mirrored entries and, on every other key, the same data column name by column name) inside a decidable scope "
+              "(in_scope = schemas_okb && conv_okb && delete_exactb): compat_schemas_ok shows the readable class (one side keeps the ancestor's column "
+              "list, the other changes the column SET or nothing) lies inside schemas_ok, conflict_iff_boundary shows delete_exact is necessary, and "
+              "oracle_on_model shows the oracle accepts the model on every in-scope input. Partial: the full conflict_iff / merge_swap "
               "statements are false of the faithful model and of dolt in three situations, kept as *_refuted witnesses that are replayed on the "
               "implementation on every run: delete vs. update confined to an added column (resolved silently), byte-identical stored tuples under "
               "different column lists (taken for a convergent edit), moved columns with a byte-equal row (update invisible to the differ). "
@@ -28,8 +31,10 @@ LEVEL_NOTE = ("Trusted: Coq kernel, Go harness (SQL script runner over the in-pr
               "input tables are read back from the three commits), prolly-tree diff/patch machinery (C14/C30; the model is key-wise), value encodings and type "
               "conversion (cells are compared as abstract values of one type class; type widening is not generated), column defaults (added columns have none), "
               "secondary indexes and constraint validators (only their effect of selecting the slow merge path is exercised).")
-THEOREMS = ["merge_total", "merge_total_as_found_refuted", "row_merge_refines_spec", "conflict_iff_partial", "conflict_iff_refuted",
-            "merge_one_sided_left", "merge_one_sided_right", "merge_agree", "merge_cellwise", "merge_swap_partial", "reorder_update_lost", "byte_coincidence_refuted", "table_merge_get", "conflicts_exact"]
+THEOREMS = ["merge_total", "merge_total_as_found_refuted", "row_merge_refines_spec_exact", "row_merge_refines_spec", "conflict_iff_in_scope",
+            "conflict_iff_boundary", "conflict_iff_partial", "conflict_iff_refuted", "merge_swap", "spec_swap", "compat_schemas_ok", "schemas_okb_iff",
+            "merge_one_sided_left", "merge_one_sided_right", "merge_agree", "merge_cellwise", "reorder_update_lost", "byte_coincidence_refuted",
+            "table_merge_get", "conflicts_exact", "oracle_on_model"]
 REFUTED = ["merge_total_as_found_refuted (F5: processBaseColumn rightSchema with left index)",
            "byte_coincidence_refuted (byte-equal stored tuples under different schemas taken for a convergent edit)",
            "conflict_iff_refuted (delete vs update of a newly added column resolved silently)",
